@@ -26,6 +26,8 @@ import (
 	"github.com/icon-project/goloop/common/intconv"
 	"github.com/icon-project/goloop/common/trie"
 	"github.com/icon-project/goloop/common/trie/trie_manager"
+	"github.com/icon-project/goloop/service/scoredb"
+	"github.com/icon-project/goloop/service/state"
 
 	"verifharness/tlaio"
 )
@@ -326,6 +328,7 @@ type cstep struct {
 	V     int             `json:"v"`
 	Via   bool            `json:"via"`
 	Kb    builder         `json:"kb"`
+	Api   string          `json:"api"`
 	Res   json.RawMessage `json:"res"`
 	Store []kv            `json:"store"`
 }
@@ -364,6 +367,17 @@ func newMapStore() *recStore {
 		},
 		touched: map[string]bool{},
 	}
+}
+
+// newAccountStores: the stores of two contract accounts of one real world state; the second one is the
+// neighbour contract that uses the same container names
+func newAccountStores() (*recStore, *recStore) {
+	ws := state.NewWorldState(db.NewMapDB(), nil, nil, nil, nil)
+	mk := func(id byte) *recStore {
+		as := ws.GetAccountState(append([]byte{id}, bytes.Repeat([]byte{0x77}, 19)...))
+		return &recStore{get: as.GetValue, set: as.SetValue, del: as.DeleteValue, touched: map[string]bool{}}
+	}
+	return mk(1), mk(2)
 }
 
 func newTrieStore() *recStore {
@@ -407,8 +421,14 @@ func (w *world) array(s cstep) *containerdb.ArrayDB {
 	if a, ok := w.arr[s.C]; ok && !w.fresh {
 		return a
 	}
-	kb, _ := newBuilder(s.Kb, len(s.Kb.Raw) > 0, w.rnd)
-	a := containerdb.NewArrayDB(w.st, kb)
+	var a *containerdb.ArrayDB
+	if s.Api == "scoredb" { // the type part is added by scoredb itself
+		keys, _ := typedAll(s.Kb.Parts[1:], w.rnd)
+		a = scoredb.NewArrayDB(w.st, keys...)
+	} else {
+		kb, _ := newBuilder(s.Kb, len(s.Kb.Raw) > 0, w.rnd)
+		a = containerdb.NewArrayDB(w.st, kb)
+	}
 	w.arr[s.C] = a
 	return a
 }
@@ -417,8 +437,14 @@ func (w *world) dictdb(s cstep, depth int) *containerdb.DictDB {
 	if d, ok := w.dict[s.C]; ok && !w.fresh {
 		return d
 	}
-	kb, _ := newBuilder(s.Kb, len(s.Kb.Raw) > 0, w.rnd)
-	d := containerdb.NewDictDB(w.st, depth, kb)
+	var d *containerdb.DictDB
+	if s.Api == "scoredb" {
+		keys, _ := typedAll(s.Kb.Parts[2:], w.rnd)
+		d = scoredb.NewDictDB(w.st, string(s.Kb.Parts[1].bytes()), depth, keys...)
+	} else {
+		kb, _ := newBuilder(s.Kb, len(s.Kb.Raw) > 0, w.rnd)
+		d = containerdb.NewDictDB(w.st, depth, kb)
+	}
 	w.dict[s.C] = d
 	return d
 }
@@ -427,8 +453,14 @@ func (w *world) vardb(s cstep) *containerdb.VarDB {
 	if v, ok := w.vr[s.C]; ok && !w.fresh {
 		return v
 	}
-	kb, _ := newBuilder(s.Kb, len(s.Kb.Raw) > 0, w.rnd)
-	v := containerdb.NewVarDB(w.st, kb)
+	var v *containerdb.VarDB
+	if s.Api == "scoredb" {
+		keys, _ := typedAll(s.Kb.Parts[1:], w.rnd)
+		v = scoredb.NewVarDB(w.st, keys...)
+	} else {
+		kb, _ := newBuilder(s.Kb, len(s.Kb.Raw) > 0, w.rnd)
+		v = containerdb.NewVarDB(w.st, kb)
+	}
 	w.vr[s.C] = v
 	return v
 }
@@ -573,12 +605,22 @@ func (w *world) compareStore(pred []kv) string {
 func runContainers(steps []cstep, rnd *rand.Rand) (string, string) {
 	w := &world{rnd: rnd, kind: rnd.Intn(5), salt: byte(rnd.Intn(256)), fresh: rnd.Intn(2) == 0,
 		arr: map[string]*containerdb.ArrayDB{}, dict: map[string]*containerdb.DictDB{}, vr: map[string]*containerdb.VarDB{}}
-	if rnd.Intn(2) == 0 {
+	var neighbour *world
+	switch rnd.Intn(3) {
+	case 0:
 		w.st = newMapStore()
-	} else {
+	case 1:
 		w.st = newTrieStore()
+	default: // a contract account of a real world state, next to another contract doing the same calls
+		var st2 *recStore
+		w.st, st2 = newAccountStores()
+		neighbour = &world{st: st2, rnd: rnd, kind: (w.kind + 1) % 5, salt: w.salt + 1, fresh: true,
+			arr: map[string]*containerdb.ArrayDB{}, dict: map[string]*containerdb.DictDB{}, vr: map[string]*containerdb.VarDB{}}
 	}
 	for i, s := range steps {
+		if neighbour != nil && rnd.Intn(2) == 0 {
+			neighbour.step(s) // same containers, other contract, other values: must not show up in this contract's store
+		}
 		got, err := w.step(s)
 		if err != nil {
 			return "containers:" + s.Op + ":call", fmt.Sprintf("step %d %s(%s): %v", i, s.Op, s.C, err)
@@ -616,7 +658,7 @@ func TestReplay(t *testing.T) {
 			}
 		}
 		if len(steps) > 0 {
-			sig = steps[0].Kb.Type + "/" + fmt.Sprint(steps[0].Kb.Raw) + "/" + sig
+			sig = steps[0].Api + "/" + steps[0].Kb.Type + "/" + fmt.Sprint(steps[0].Kb.Raw) + "/" + sig
 		}
 		key, what := guarded(func() (string, string) { return runContainers(steps, rnd) }, "containers:panic")
 		if what == "" {
